@@ -54,6 +54,8 @@ ASSUMPTIONS = [
     "an override of onLeave/onDisconnect that never calls the default body takes over its clean-up duty; at least one "
     "of the two default bodies runs",
     "lifecycle messages (HELLO, GOODBYE, ABORT, AUTHENTICATE) are accepted by ITransport.send",
+    "callbacks_ordered_once_twisted: user code does not call join() itself (a session that joins again on the same "
+    "transport, e.g. from onLeave, is supported by the code and outside the per-connection clause of the property)",
 ]
 MANIFEST_ENTRY = {
     "technique": "Lean 4 theorems over arbitrary event histories of an executable session model (lifecycle part) + "
@@ -62,7 +64,10 @@ MANIFEST_ENTRY = {
     "text": "Proved in Lean, for every state / history, both txaio scheduling modes (Twisted: callbacks at once; asyncio: "
             "queued continuations, one loop iteration = `tick`) and every behaviour of the user hooks (run the default body or "
             "not, make API calls, return or raise): pre_session_gate (before establishment anything but WELCOME/ABORT/"
-            "CHALLENGE, afterwards every handshake message, raises ProtocolError and changes nothing); "
+            "CHALLENGE, afterwards every handshake message, and once the session or the join attempt of the connection is "
+            "over EVERY message, raises ProtocolError and changes nothing); session_end_is_recorded and "
+            "open_and_join_clear_the_record (router ABORT, the GOODBYE that ends a session and a failing onChallenge set the "
+            "record before onLeave runs; only onOpen and join() clear it); "
             "api_fails_fast_after_end (without a transport call/publish/subscribe/register raise TransportLost at once and "
             "record nothing), closed_ends_everything, transport_written_only_by_onOpen_and_onClose and "
             "api_fails_fast_after_end_history (onClose drops the transport whatever the hooks do; NO other event of any "
@@ -76,21 +81,33 @@ MANIFEST_ENTRY = {
             "touches no completed future) and onDisconnect_is_backstop. The property as a whole is an executable trace "
             "Spec (Model/SessTrace.lean: callbacks and observers in order and at most once per connection, onLeave exactly "
             "at session ends / aborts, gate, GOODBYE at most once and answered iff not initiator, nothing pending after the "
-            "end, API after the end); CallbacksOrderedOnce (the model's trace of EVERY history is clean) is stated in full "
-            "and refuted by decide on four histories: F11 (two ABORTs), WELCOME after the GOODBYE that ended the session, "
-            "and on asyncio GOODBYE one loop iteration after WELCOME (onLeave before onJoin) and GOODBYE in the iteration "
-            "of WELCOME (rejected as protocol violation); it is NOT proved as a `_partial` theorem over all well-formed "
-            "histories (only decide-checked instances with raising hooks, pending requests, local leave and transport "
-            "loss): for the ordering / at-most-once clauses the assurance is the tie. Tie: 1160 (quick) conversations of "
+            "end, API after the end). callbacks_ordered_once_twisted (since the repair of the F11 family): for EVERY "
+            "history on Twisted in which the transport calls onOpen / onClose / onMessage the way transports do and user "
+            "code never calls join() itself — whatever the hooks do, whatever the router sends (any number of ABORT / WELCOME "
+            "/ CHALLENGE / GOODBYE at any position), wherever the transport is lost — the trace Spec finds in the trace of "
+            "the model no callback or observer out of order or a second time on one connection, no onLeave without a session "
+            "end / aborted join and none missing, no illegal message handled as anything but a protocol violation (invariant "
+            "over four phases between the model and the six fields of the Spec reader these clauses read; "
+            "stepCheck_order ties the real Spec to them). The statement for both schedulings (CallbacksOrderedOnce) stays "
+            "refuted by decide on two asyncio histories: GOODBYE one loop iteration after WELCOME (onLeave before onJoin) and "
+            "GOODBYE in the iteration of WELCOME (rejected as protocol violation); the histories that refuted it on Twisted "
+            "(two ABORTs, WELCOME after the GOODBYE that ended the session, ...) are decide-checked clean; that re-joining "
+            "on the same transport (join() from onLeave) is outside the per-connection clause is decide-checked too. "
+            "Tie: 1160 (quick) conversations of "
             "the session grammar x ONE illegal message / leave() / disconnect() / transport loss at each position x hooks x "
             "loop schedules feasible on asyncio, Twisted and asyncio, observation-exact against the model, trace Spec "
             "judged on the implementation's trace; the same scripts over the real WebSocket and RawSocket WAMP transports "
             "of both frameworks (json / msgpack / cbor) against an independent in-memory peer, token-exact.",
-    "note": "Trusted: Lean kernel; the hand-written model and trace Spec; txaio/loop semantics as modelled. Known findings "
-            "(known_findings.d/C06.jsonl): the F11 family (9 input classes, one root cause: the pre-session branch keeps no "
-            "record that the join attempt / session of this connection is over) and, found by this check on asyncio and "
-            "confirmed on the real asyncio RawSocket transport, messages processed in the loop iteration of WELCOME (4 "
-            "classes) and GOODBYE one iteration after WELCOME (onLeave before onJoin). Spec decisions: a failing onChallenge "
+    "note": "Trusted: Lean kernel; the hand-written model and trace Spec; txaio/loop semantics as modelled. Repaired in "
+            "/repo (fixed entries in known_findings.d/C06.jsonl, reported again as violations if they return): the F11 "
+            "family (9 input classes, one root cause: the pre-session branch kept no record that the join attempt / session "
+            "of the connection was over; the late WELCOME / ABORT / CHALLENGE is now a ProtocolError and the Spec demands "
+            "that). Open findings, asyncio only, found by this check and confirmed on the real asyncio RawSocket transport: "
+            "messages processed in the loop iteration of WELCOME (4 classes) and GOODBYE one iteration after WELCOME (onLeave "
+            "before onJoin); left open because the WELCOME continuation is deferred by txaio itself (callbacks on a done "
+            "Future run at the next iteration; onWelcome may be a coroutine), so assigning the session id at once needs "
+            "either a synchronous verdict of onWelcome or queuing of the messages that arrive meanwhile. Spec decisions: a "
+            "session / join attempt is over once onLeave has run and no HELLO was sent since; a failing onChallenge "
             "(own ABORT) counts as an aborted join (onLeave expected); an override of onDisconnect that never calls the "
             "default body is outside the Spec. After close() / a protocol violation the real transports deliver nothing "
             "more, so part B ends the conversation there (except messages of the same read).",
@@ -114,23 +131,33 @@ HANDSHAKE = ("m.welcome", "m.abort", "m.challenge")
 
 
 def _endings(script, start, stop):
-    """(index, how) of the events that end the join attempt / session of a connection, in order"""
+    """(index, how) of the events that end the join attempt / session of a connection, in order. Once it is over
+    (and until this side joins again) a further handshake message ends nothing: it is a protocol violation."""
     out = []
     joined = False
+    over = False
     for j in range(start, stop):
         t = script[j]
         k = _kind(t)
-        if k == "m.welcome":
-            joined = True
-        elif k == "m.abort":
+        if k in ("open", "join"):
+            over = False
+        elif k == "closed":
+            out.append((j, "closed"))
+        elif over:
+            continue
+        elif k == "m.welcome":
+            # (onWelcome returning something / raising refuses the session)
+            joined = joined or t.partition(";")[2].split("!")[0] in ("", "r")
+        elif k == "m.abort" and not joined:
             out.append((j, "m.abort"))
+            over = True
         elif k == "m.goodbye" and joined:
             out.append((j, "m.goodbye"))
             joined = False
-        elif k == "m.challenge" and ";x" in t:
+            over = True
+        elif k == "m.challenge" and ";x" in t and not joined:
             out.append((j, "m.challenge-failed"))
-        elif k == "closed":
-            out.append((j, "closed"))
+            over = True
     return out
 
 
@@ -142,6 +169,7 @@ def classify(script, i, v, fw):
     ends = _endings(script, start, i + 1)
     # (1) a handshake message (WELCOME / ABORT / failing CHALLENGE) that arrives after the join attempt or the
     # session of this connection is already over, and is handled as if it were the first one
+    late = []
     for j in range(start, i + 1):
         t = script[j]
         k = _kind(t)
@@ -149,7 +177,11 @@ def classify(script, i, v, fw):
             before = [h for (e, h) in ends if e < j and h != "closed"]
             if before:
                 name = "m.challenge-failed" if k == "m.challenge" else k
-                return f"handshake-message-accepted-after-end:{name}-after-{before[-1]}"
+                late.append((j, f"handshake-message-accepted-after-end:{name}-after-{before[-1]}"))
+    # the verdict is about the late message itself: it was not (only) rejected
+    for j, key in late:
+        if j == i:
+            return key
     # (2) asyncio: a message processed in the same loop iteration as WELCOME (same read) still meets `_session_id is None`
     if fw == "asyncio":
         for j in range(start, i + 1):
@@ -165,9 +197,14 @@ def classify(script, i, v, fw):
                     # the message the verdict is about if it is one of them, else the first of the run
                     return "asyncio:message-in-the-loop-iteration-of-welcome:" + (ev if ev in run else run[0])
     # (3) asyncio: the session ends in the loop iteration between the WELCOME continuation and onJoin
-    if fw == "asyncio" and clause in ("hook-order,onJoin", "observer-order,ready") and ev in ("pump", "tick"):
+    # (there must be a WELCOME that came in time; the onJoin of one that came after the end belongs to (1))
+    wel = [j for j in range(start, i + 1) if _kind(script[j]) == "m.welcome" and j not in [x for x, _ in late]]
+    if fw == "asyncio" and clause in ("hook-order,onJoin", "observer-order,ready") and ev in ("pump", "tick") and wel:
         how = [h for (_, h) in ends]
         return "asyncio:onJoin-after-session-end:" + (how[-1] if how else "-")
+    # (1, continued) what an accepted late handshake message leads to at later events
+    if late:
+        return late[0][1]
     if ev in ("pump", "tick"):
         prev = [_kind(t) for t in script[:i] if _kind(t) not in ("pump", "tick")]
         ev = ev + "<-" + (prev[-1] if prev else "")
@@ -462,7 +499,7 @@ def gen_real(ctx):
 
 
 CORPUS = [
-    # F11: two ABORT before WELCOME
+    # F11 (repaired, kept as regression input): two ABORT before WELCOME
     (["open", "pump", "m.abort", "pump", "m.abort", "pump", "closed", "pump"], True),
     # the conversation in one piece: challenge, welcome, requests of all kinds, peer GOODBYE, close, API afterwards
     (["open", "pump", "m.challenge;rv1", "pump", "m.welcome,7,-", "pump", "sub,1,1,n,ok", "m.subscribed,1,50", "reg,2,2,n,ok",
